@@ -77,6 +77,14 @@ var configs = map[string]propCfg{
 		Thorough:   tierCfg{BudgetS: 900, Chunk: 150, MaxRuns: 5000000},
 		Assume:     assumeAll, Real: realAll, Stub: stubAll,
 	},
+	"C09": {
+		Level:      "fault_enumeration",
+		Rule:       "For each sampled script (3-11 create/update/delete/compact by one or two writers on 1-3 keys, with pauses shorter and longer than the 5 s retry interval, plus a list-then-watch reader) 40 variants are executed: one unknown-outcome fault on the k-th client data commit (k=1..8) in both variants (applied / not applied); the same plus a fault on the repair write itself (unknown-outcome applied / lost / definite error); pairs of faults. The simulated clock runs through the retry interval; after the faults stop, 21 more simulated seconds pass before the convergence checks.",
+		NonTrivial: "an unknown-outcome fault actually fired on a client data commit.",
+		Quick:      tierCfg{BudgetS: 45, Chunk: 120, MaxRuns: 400000},
+		Thorough:   tierCfg{BudgetS: 900, Chunk: 120, MaxRuns: 5000000},
+		Assume:     assumeAll, Real: realAll, Stub: stubAll,
+	},
 }
 
 // expectedProbes lists the reach probes whose absence is reported as a coverage gap.
@@ -88,5 +96,6 @@ var expectedProbes = map[string][]string{
 	"C06": {"compared-with-events-applied", "compaction-overlapped-watch"},
 	"C07": {"compaction-deleted-records", "compaction-delete-failed", "skip-after-failure-engaged", "compactor-crashed", "second-compaction", "compare-and-delete-lost-to-concurrent-write"},
 	"C08": {"read-below-accepted-floor", "older-compaction-after-newer"},
+	"C09": {"retry-rewrote", "retry-ran", "convergence-compared", "repair-write-itself-uncertain-applied", "repair-write-itself-uncertain-lost", "unknown-outcome-delete-uncertain-applied", "unknown-outcome-create-uncertain-lost"},
 	"C03": {"read-at-historical-revision", "limit-cut-result", "compaction-before-reread"},
 }
